@@ -143,3 +143,23 @@ Example map_recursive_page_differs :
   /\ (match map_page PGR 0x4242 3 boot with Ok (_, e) => Some e | Stray => None end) = Some 0
   /\ M.map_stable_b go_levels 0 vmm_pdtVirtualAddr (frame_addr PGR) boot = false.
 Proof. vm_compute. repeat split. Qed.
+
+(** ---- the general corollaries: the boot state satisfies the invariant ---- *)
+From FF Require Vmm.PtInit Vmm.PtMap.
+Lemma boot_inv : PtMap.Inv boot 0x100 0x100 (PtInit.own_root 0x100).
+Proof.
+  apply PtInit.Inv_init; [reflexivity | vm_compute; discriminate | |].
+  - vm_compute. repeat constructor; cbn; intuition discriminate.
+  - intros f Hin Hz. cbn in Hin. repeat (destruct Hin as [<-|Hin]; [vm_compute; split; reflexivity|]). destruct Hin.
+Qed.
+
+Example C04_map_is_translation_inv_nonvacuous :
+  PtMap.Inv boot 0x100 0x100 (PtInit.own_root 0x100) /\ hw_idx PG 0 <> 511 /\ hw_idx PG511 0 = 511 /\ (3 : N) < two64 /\ T.mem_w64 boot.
+Proof. split; [exact boot_inv|]. split; [vm_compute; discriminate|]. split; [reflexivity|]. split; [reflexivity | exact boot_w64]. Qed.
+
+Example C04_map_temporary_is_translation_inv_nonvacuous :
+  PtMap.Inv boot 0x100 0x100 (PtInit.own_root 0x100) /\ T.mem_w64 boot.
+Proof. split; [exact boot_inv | exact boot_w64]. Qed.
+
+Example C04_map_stable_inv_nonvacuous : PtMap.Inv boot 0x100 0x100 (PtInit.own_root 0x100) /\ hw_idx PG 0 <> 511.
+Proof. split; [exact boot_inv | vm_compute; discriminate]. Qed.
